@@ -6,6 +6,7 @@ import sys
 import z3
 
 from . import core
+from spec import pseudo as P
 from .core import SymInt, SymBool, sym_int, to_bv, U, mk
 
 STUBS_DOC = [
@@ -82,23 +83,37 @@ class SymMem:
         self.log = []  # (kind, addr_term, size)
         self.memories = []
 
+    def _addr(self, desc):
+        """32-bit address term, or None when the physical address lies outside [0, 2^32) (no controller there:
+        the real hub reads 0 and ignores writes)"""
+        pa = desc.paddress.physicaladdress
+        ok = z3.simplify(core.in_range(pa, 32))
+        if not z3.is_true(ok):
+            if z3.is_false(ok) or not core.CTX.branch(ok):
+                return None
+        return to_bv(pa, 32)
+
     def __getitem__(self, key):
         desc, size = key
         assert size == 1 or size == 2 or size == 4 or size == 8
-        a = to_bv(desc.paddress.physicaladdress, 32)
+        a = self._addr(desc)
+        if a is None:
+            return 0
         self.log.append(('r', a, size))
-        bs = [z3.Select(self.array, a + i) for i in range(size)]
+        bs = [P.sel8(self.array, z3.simplify(a + i)) for i in range(size)]
         e = bs[0] if size == 1 else z3.Concat(*reversed(bs))
         return U(e, 8 * size)
 
     def __setitem__(self, key, value):
         desc, size = key
         assert size == 1 or size == 2 or size == 4 or size == 8
-        a = to_bv(desc.paddress.physicaladdress, 32)
+        a = self._addr(desc)
+        if a is None:
+            return
         # the real hub uses struct.pack: out-of-range values raise struct.error
-        ok = core.in_range(value, 8 * size)
-        if not z3.is_true(z3.simplify(ok)):
-            if not core.CTX.branch(z3.simplify(ok)):
+        ok = z3.simplify(core.in_range(value, 8 * size))
+        if not z3.is_true(ok):
+            if z3.is_false(ok) or not core.CTX.branch(ok):
                 import struct
                 raise core.modelled(struct.error('argument out of range'))
         v = to_bv(value, 8 * size)
